@@ -798,7 +798,11 @@ class ResourceAnalysis:
                 if cs and cs <= pieces: pieces.add(m_.name)
         for g in self.facts.fns:
             if g.d.get('class') != CLS or g.d.get('lambda') or g.d.get('ctor') or g.d.get('dtor') or g.name in pieces: continue
-            touches = any(n.k == 'member' and n.name in ('m_activeCount',) and n.n('base') is not None and n.n('base').k == 'this' for n in g.nodes())
+            roles_ = {f_.name for f_ in self.fn.values() if f_ is not None}
+            if g.name in roles_: continue
+            inner = {self.fn[k].name for k in ('select', 'enqueue') if k in self.fn}
+            touches = any(n.k == 'member' and n.name in STATE and n.n('base') is not None and n.n('base').k == 'this' for n in g.nodes()) or \
+                any(n.k == 'call' and n.callee_in_root and any(t.name in inner for t in self.facts.resolve(n)) for n in g.nodes())
             if not touches: continue
             seen = set()
             for v in rows_lock():
@@ -813,12 +817,44 @@ class ResourceAnalysis:
                 row = show(v, ['QE', 'op'] + (['t'] if 't' in used else []))
                 for P in paths:
                     cw = self._writes(P, 'm_activeCount')
-                    if not cw or any(e[0] == 'wait' for e in P.events): continue
+                    short = g.name.split('::')[-1]
+                    evs = P.events
+                    waits_ = [i for i, e in enumerate(evs) if e[0] == 'wait']
+                    if waits_:
+                        # another way to wait for the lock: the request must be in the queue like every other waiting request
+                        if not any(e[0] == 'q' for e in evs[:waits_[0]]) and (v['op'] == 'Write' or not v['QE']):
+                            self.add('RES.6', False, f'{short}() row {row}: a request that waits is recorded in the queue', evs[waits_[0]][1].shortloc(),
+                                     f'{short}() waits on the condition variable without a queue entry ({row}): select() does not know the request — requests that arrive later are queued and admitted before it, '
+                                     'and readers that join the active readers keep it waiting for as long as they come')
+                        continue
+                    sel_ = [i for i, e in enumerate(evs) if e[0] == 'enter' and e[2] == f'{CLS}::select']
+                    if sel_:
+                        before = [e for e in evs[:sel_[0]] if e[0] == 'write' and e[2][0][0] == 'f' and e[2][0][1][-1] == 'm_activeCount']
+                        val0 = before[-1][2][1] if before else Lin.sym('cnt')
+                        inst_ = f'{short}() row {row}: select() runs only when no holder is left'
+                        if v['op'] != 'None' and isinstance(val0, Lin) and (val0 == Lin.sym('cnt') or (val0.is_const() and val0.c >= 1)):
+                            self.add('RES.4', False, inst_, evs[sel_[0]][1].shortloc() if evs[sel_[0]][1] is not None else g.shortloc(),
+                                     f'{short}() calls select() while the lock is held ({row}, holder count {val0}): select() overwrites the holder count with the size of the admitted batch, the caller\'s own hold is no longer counted — '
+                                     'when the admitted requests have left, the count is 0 and a queued writer is admitted next to the caller')
+                        elif not (isinstance(val0, Lin) and ((val0.is_const() and val0.c == 0) or (v['op'] == 'None' and val0 == Lin.sym('cnt')))):
+                            self.add('RES.4', None, inst_, g.shortloc(), f'holder count at the call of select() is {val0}: not followed')
+                        continue
+                    ow0 = self._writes(P, 'm_activeOp')
+                    if not cw and ow0:
+                        fin = ow0[-1][2][1]
+                        popped = any(e[0] == 'q' and 'pop' in str(e[2][0]) for e in evs)
+                        if v['op'] == 'Write' and fin == E('Read') and not v['QE'] and v.get('front') == 'Read' and not popped:
+                            self.add('RES.2c', False, f'{short}() row {row}: readers wait only behind a writer', ow0[-1][1].shortloc(),
+                                     f'{short}() turns the write lock into a read lock ({row}) and leaves the read requests at the head of the queue parked: no writer is active or ahead of them, yet they wait until the caller unlocks — '
+                                     'and every later reader queues up behind them')
+                        elif fin != E(v['op']):
+                            self.add('RES.3', None, f'{short}() row {row}: the active operation changes with an admission or a release', ow0[-1][1].shortloc(), f'{short}() sets the active operation to {fin} without touching the holder count: outside the lock tables')
+                        continue
+                    if not cw: continue
                     val = cw[-1][2][1]
                     if not isinstance(val, Lin):
                         self.unknown('RES.3', f'{g.name} row {row}', cw[0][1].shortloc(), f'holder count set to a value the evaluator cannot follow ({val})'); continue
                     d = val - Lin.sym('cnt')
-                    short = g.name.split('::')[-1]
                     if not d.is_const() and set(val.t) <= {'cnt'} and not any(e[0] == 'call_unknown' for e in P.events):
                         # the count is *set* (not stepped): right only where the value is the number of holders afterwards.  With the lock free
                         # (count 0) `= 1` is the admission; with readers inside, one more holder is count + 1
@@ -831,6 +867,13 @@ class ResourceAnalysis:
                                      f'after {val.c} unlockRead() calls the count is 0 and a queued writer is admitted next to the reader that is still inside')
                             continue
                     if not (d.is_const() and d.c > 0): continue          # not an admission
+                    ow_ = self._writes(P, 'm_activeOp')
+                    op_final = ow_[-1][2][1] if ow_ else E(v['op'])
+                    if op_final == E('None'):
+                        self.add('RES.3', False, f'{short}() row {row}: an admitted request leaves the active operation set', cw[0][1].shortloc(),
+                                 f'{short}() counts the caller as a holder and leaves the active operation at None ({row}): the resource looks idle, the next request of either kind is admitted on the fast path next to this holder')
+                    elif isinstance(op_final, type(E('None'))):
+                        self.add('RES.3', True, f'{short}() row {row}: an admitted request leaves the active operation set ({op_final})', cw[0][1].shortloc())
                     self.add('RES.2b', v['QE'], f'{short}() row {row}: a holder is credited without waiting only when nothing is queued', cw[0][1].shortloc(),
                              '' if v['QE'] else f'{short}() counts the caller as a holder although a request is queued ({row}): it overtakes every waiting request (a writer that waits for the readers to leave can be starved / passed)')
                     okop = v['op'] in ('None', 'Read')
